@@ -25,13 +25,26 @@
   modelled symmetry graph and cluster graph" (C13's statement about the matcher; checked on every recorded matching by
   the harness through the driver).
 
-  STATED, NOT PROVED:
+  STATED, NOT PROVED (in this file) — AUDIT: both items are NOW PROVED elsewhere, nothing is left open here:
   * existence of such matchings for every array the simulation can produce (for the toric decoder this includes
     "the number of defective clusters is even", the `assert` of `_cluster_graph`); outside the decoders' stated noise
-    domain there may be none and qecsim raises;
+    domain there may be none and qecsim raises.
+      → PROVED, all sizes / `T` / every `Ftp.reachable` array, canonical and every maximum-cardinality choice:
+        finite bias `p ≠ 0`: Props/C02/SmwpmExists.lean `smwpm_planar_never_fails`,
+        `smwpm_planar_max_cardinality_succeeds`, Props/C02/SmwpmExists2.lean `smwpm_toric_never_fails_finite_bias`
+        (any `q`), `smwpm_toric_max_cardinality_of_pm`; infinite bias (Y-only support):
+        `smwpm_planar_never_fails_infinite_bias`, `smwpm_toric_never_fails_infinite_bias`,
+        `smwpm_*_max_cardinality_succeeds_infinite_bias`; `p = 0`: `smwpm_planar_never_fails_p_zero`,
+        `smwpm_toric_never_fails_p_zero`; the toric `assert`: Props/C02/SmwpmEven.lean `smwpm_toric_assert_iff`,
+        `smwpm_toric_assert_never_fires_reachable`; outside the domain there is provably none:
+        `smwpm_*_pm_iff_infinite_bias`, `smwpm_*_pm_iff_p_zero`, `no_pm_single_x_bounded`.
   * the `success` / `custom_values` fields of the rotated-toric `DecodeResult` as functions of the matchings (their
     bookkeeping given the clusters is `finalize_spec` / `time_parities_are_bits` of Props/C03.lean; the recovery
-    field, which is all this property speaks about, is `Smwpm.Toric.decode`).
+    field, which is all the first sentence of this property speaks about, is `Smwpm.Toric.decode`).
+      → PROVED: Model/SmwpmTp.lean (`Smwpm.Toric.decodeFtp`, `runFtp`) + Props/C03/TParity.lean `result_shape`,
+        `stage_tparities_are_wrap_parities`, `custom_values_are_total_crossing_parities`, `success_iff`,
+        `single_step_all_zero`, `single_step_run`, `ftp_result_total` (tied to the real decoder by the driver ops
+        `smwpm tftp` / `smwpm trun`).
 -/
 import QecVerif.Props.C03
 import QecVerif.Props.C02.Smwpm
